@@ -876,6 +876,84 @@ def run_waitfor_case(case, wd):
         shutil.rmtree(tmp, ignore_errors=True)
 
 
+# ---------------------------------------------------------------------------------------
+# pykka mode: scripted Tell/Call programs on plain pykka actors (semantics of the oracle library)
+
+
+def run_pykka_case(case, wd):
+    n = case["n"]
+    code = {(a, h): instrs for a, h, instrs in case["table"]}
+    counts = {}
+    lock = threading.Lock()
+    pending = [0]
+    quiet = threading.Event()
+    deadlock = []
+    refs = []
+
+    def sent():
+        with lock:
+            pending[0] += 1
+
+    def finished():
+        with lock:
+            pending[0] -= 1
+            if pending[0] == 0:
+                quiet.set()
+
+    class Scripted(pykka.ThreadingActor):
+        def __init__(self, me):
+            super().__init__()
+            self.me = me
+
+        def on_receive(self, message):
+            h = message
+            try:
+                with lock:
+                    counts[(self.me, h)] = counts.get((self.me, h), 0) + 1
+                for kind, t, h2 in code.get((self.me, h), []):
+                    if deadlock:
+                        return None
+                    sent()
+                    if kind == "tell":
+                        refs[t].tell(h2)
+                    else:
+                        try:
+                            refs[t].ask(h2, block=True, timeout=case.get("ask_timeout"))
+                        except pykka.Timeout:
+                            deadlock.append((self.me, t))
+                            quiet.set()
+                            return None
+                return None
+            finally:
+                finished()
+
+    wd.arm({"pykka": case}, 30)
+    try:
+        for a in range(n):
+            refs.append(Scripted.start(a))
+        for a, h in case["inject"]:
+            sent()
+            refs[a].tell(h)
+        if not case["inject"]:
+            quiet.set()
+        quiet.wait(25)
+        time.sleep(0.002)
+        with lock:
+            res = {"counts": sorted([a, h, c] for (a, h), c in counts.items()), "total": sum(counts.values()),
+                   "deadlock": bool(deadlock), "quiet": quiet.is_set(), "pending": pending[0]}
+        wd.disarm()
+        return res
+    finally:
+        for r in refs:
+            try:
+                r.stop(block=False)
+            except Exception:  # noqa: BLE001
+                pass
+        t_end = time.monotonic() + 3
+        while pykka.ActorRegistry.get_all() and time.monotonic() < t_end:
+            time.sleep(0.002)
+
+
 def main():
     mode, cases_path, out_path = sys.argv[1:4]
     cases = json.loads(open(cases_path).read())
@@ -886,7 +964,8 @@ def main():
         for idx, case in cases:
             t0 = time.monotonic()
             try:
-                res = run_shutdown_case(case, wd) if mode == "shutdown" else run_waitfor_case(case, wd)
+                res = {"shutdown": run_shutdown_case, "waitfor": run_waitfor_case,
+                       "pykka": run_pykka_case}[mode](case, wd)
             except BaseException as e:  # noqa: BLE001
                 res = {"harness_error": f"{type(e).__name__}: {e}", "tb": traceback.format_exc()[-1500:]}
             res["elapsed_s"] = round(time.monotonic() - t0, 3)
